@@ -20,25 +20,26 @@ MANIFEST = dict(
               'documented value domain) about a model of the per-option static_assert guard; the value filter is T2-translated, the '
               'loop structure of the four templates is extracted by a fail-closed scanner; model vs. real nnvg + gcc/g++ correspondence '
               'on translation units mixing the support header of one option set with the type headers of another',
-    text='Theorems in coq/theories/Properties/C17.v: C17_guard_rejects_iff_differ_c/_cpp (for ALL option sets over the documented '
-         'values with equal duplicate-free key lists: accepted <-> identical); C17_diagnostics_exact_c/_cpp (a type header reports a '
-         'mismatch for option k exactly when the two sets give k different values, an undeclared symbol exactly when k is missing on '
-         'the support side); C17_sav_injective_on_documented_domain (filter_to_static_assertion_value, translated, is defined and '
-         'injective on the documented values of every option: CRC-32 of any|big|little, the std values, cast formats, container and '
-         'allocator strings, ctor conventions; 0/1 for booleans); C17_keys_equal (both loops cover every option, same keys); '
-         'C17_symbols_distinct (names rendered by the real macrofy/id filters are pairwise distinct); '
-         'C17_accept_implies_subset_partial + C17_guard_full_refuted + C17_extra_type_key_undeclared (without equal key lists only one '
-         'inclusion holds: known finding F-OPTGUARD-KEYSET, witness reproduced with nnvg --language-standard c11); '
-         'C17_sav_not_injective_outside_domain (free-form strings collide under CRC-32, "" collides with false); C17_crc32_facts '
-         '(check value 0xCBF43926, streaming law, 32-bit range); C17_filter_facts (docstring examples, booleans, range, failure on other '
-         'types); C17_omit_support. Tie: Gen_OptGuard.v is regenerated from /repo on every run (filter source, four template loops, '
-         'properties.yaml, CLI choices, ConstructorConvention, names through the real filters) and the proofs re-checked; correspondence: '
-         'every single-option difference from the default set and from the explicit c++17-pmr set (both orders), random multi-option '
-         'differences, identical pairs and key-set differences are generated with the real nnvg into separate directories, the numbers '
-         'in the generated #define/constexpr and static_assert lines are compared with the model, and one translation unit per pair is '
-         'compiled (gcc -std=c11, g++ -std=c++14/17/20): exit status, the set of failing assertions per type header (by option) and the '
-         'mismatch message are compared with the model and with the property oracle; CRC-32 model vs zlib and translated filter vs the '
-         'real filter on random values.',
+    text='Theorems in coq/theories/Properties/C17.v. MAIN C17_main_c/_cpp: for ALL option sets o_s (support header) and o_t (type headers) '
+         'over the documented values and documented key sets, no assumption relating the two key lists: the diagnostics ds of every type '
+         'header exist in the model, and either ds <> [] (build rejected by the key-set / per-option "different language options" '
+         'assertions) or o_s ~ o_t on every relevant option (lookup equal for every option not classified OIrrelevant), and ds = [] <-> same '
+         'option set; C17_equiv_is_same_set; C17_options_classified_and_fingerprinted (every option regenerated from properties.yaml is '
+         'classified in OptGuard.v option_classes -- a new option fails closed until classified -- and rendered by both loops); '
+         'C17_guard_live_in_every_type_header (the guard statements are not inside a comment or a preprocessor conditional other than the '
+         'include guard, come after the #include loop, and the template of every concrete pydsdl composite class -- struct, union, '
+         'delimited, service -- reaches the guard of base.j2); C17_keyset_facts; C17_guard_rejects_iff_differ_c/_cpp and '
+         'C17_diagnostics_exact_c/_cpp (per-option assertions, which fire exactly for the options whose values differ); '
+         'C17_sav_injective_on_documented_domain; C17_keys_equal; C17_symbols_distinct; C17_accept_implies_subset_partial; '
+         'C17_sav_not_injective_outside_domain (CRC-32 collisions on free text: the bound of the claim); C17_messages_literal_safe; '
+         'C17_crc32_facts; C17_filter_facts; C17_omit_support. Theorems about the pre-fix templates are in History/C17_history.v (not '
+         'counted). Tie: Gen_OptGuard.v is regenerated from /repo on every run (filter source by T2; the four guard templates by a Jinja- '
+         'and C-aware fail-closed scanner; extends/include closure of the entry templates; properties.yaml, docs/*.rst option values, CLI '
+         'choices, ConstructorConvention, names through the real filters) and the proofs re-checked; correspondence with real nnvg + '
+         'gcc/g++: numbers in the generated #define/constexpr/static_assert lines of every header (struct, delimited, union, service) vs '
+         'the model; one translation unit per ordered pair (all single-option differences from two bases in both orders, transpositions, '
+         'random multi-option differences, key-set differences, an identical pair for every documented value form) compared on exit '
+         'status, failing assertions per type header, mismatch message; CRC-32 model vs zlib, translated filter vs the real one.',
     note='Trusted: Coq kernel; T2 mini-translator and template scanner in tools/translators/gen_c17.py (the scanner accepts exactly one '
          'guard loop per template and fails closed otherwise); the modelling assumption that a rendered symbol is determined by (name '
          'expression, key) -- backed by C17_symbols_distinct over the really rendered names and by the compile runs; "documented values" = '
@@ -52,6 +53,7 @@ DSDL = {
     'demo/A.1.0.dsdl': 'uint8 a\nfloat32 f\nuint8[<=4] v\n@sealed\n',
     'demo/B.1.0.dsdl': 'A.1.0 x\nbool y\nint13[2] z\n@extent 256\n',
     'demo/C.1.0.dsdl': '@union\nuint16 p\nA.1.0 q\nfloat64[<=2] r\n@sealed\n',
+    'demo/D.1.0.dsdl': 'uint8 cmd\nC.1.0 arg\n@sealed\n---\nB.1.0 result\nuint8[<=3] tail\n@extent 512\n',   # service
 }
 
 STD_RANK = {'c++14': 14, 'c++17': 17, 'c++20': 20}
@@ -129,6 +131,8 @@ def build_plan(facts: dict, rng, tier: str):
             base_ids.append(bid)
             pairs.append({'sup': bid, 'typ': bid, 'kind': 'identical-base', 'must_build': True})
             for k, vals in dom:
+                if tier == 'quick' and bname != 'B' and k in beff and defaults.get(k) == beff[k] and k != 'ctor_convention':
+                    continue   # quick: from a secondary base only the options that base changes (the others are covered from B)
                 for v in vals:
                     if k in beff and beff[k] == v and type(beff[k]) is type(v):
                         continue
@@ -294,12 +298,14 @@ Definition enc_crc (r : option N) : list N := match r with None => [0] | Some n 
 '''
 
 
-def run_model(queries: typing.List[str]) -> typing.Tuple[typing.Optional[typing.List[typing.List[int]]], str]:
+def run_model(queries: typing.List[str], defs: typing.Sequence[str] = ()) -> typing.Tuple[typing.Optional[typing.List[typing.List[int]]], str]:
     d = os.path.join(core.BUILD, 'c17')
     os.makedirs(d, exist_ok=True)
     path = os.path.join(d, 'cases_%d.v' % os.getpid())
     with open(path, 'w') as f:
         f.write(CASES_HEAD)
+        for dline in defs:
+            f.write(dline + '\n')
         for i, q in enumerate(queries):
             f.write('Eval vm_compute in (%d, %s).\n' % (i, q))
     p = core.run(['coqc', '-Q', os.path.join(core.COQ, 'theories'), 'Verif', '-w', '-notation-overridden', path], cwd=d, timeout=600)
@@ -353,7 +359,11 @@ def main(chk: core.Check, replay: typing.Optional[str] = None) -> int:
         except (OSError, ValueError, KeyError):
             pass
     # 1. proof obligations against the regenerated model
+    import time as _t
+    t0 = _t.time()
+    stage: typing.Dict[str, float] = {}
     res = core.coq_check('C17', ['optguard'])
+    stage['coq'] = round(_t.time() - t0, 1)
     chk.proof_coverage(res, [
         'T2 mini-translator for filter_to_static_assertion_value and the fail-closed Jinja loop scanner (tools/translators/gen_c17.py)',
         'T1 data: properties.yaml options/std groups, argparse choices, ConstructorConvention, names rendered by the real macrofy/id filters in a subprocess',
@@ -383,9 +393,11 @@ def main(chk: core.Check, replay: typing.Optional[str] = None) -> int:
     except Exception:
         pass   # the translator already failed closed on this; reported through `broken`
     chk.coverage['keyset_fingerprint_in_templates'] = {k: bool(v) for k, v in ks_sym.items()}
-    chk.coverage['live_full_theorem'] = {
-        'c': 'C17_guard_rejects_iff_differ_full_c' if ks_sym['c'] else 'C17_guard_full_refuted (+ C17_guard_rejects_iff_differ_c under equal key lists)',
-        'cpp': 'C17_guard_rejects_iff_differ_full_cpp' if ks_sym['cpp'] else 'C17_guard_rejects_iff_differ_cpp under equal key lists'}
+    chk.coverage['main_theorems'] = ['C17_main_c', 'C17_main_cpp']   # unconditional; they stop compiling if a template loses the fingerprint
+    try:
+        chk.coverage['entry_templates'] = {L_: [list(e) for e in gen_c17.entry_templates(L_)] for L_ in ('c', 'cpp')}
+    except Exception as ex:
+        chk.coverage['entry_templates'] = 'unavailable: %r' % ex
     sets, pairs = build_plan(facts, chk.rng, chk.tier)
     if replay:
         doc = json.load(open(replay))
@@ -422,6 +434,7 @@ def main(chk: core.Check, replay: typing.Optional[str] = None) -> int:
         if p['compile']:
             job['pairs'].append({k: p[k] for k in ('id', 'lang', 'sup', 'typ', 'std')})
     hp = core.run([core.PY, os.path.join(core.VERIF, 'tools', 'harness', 'c17_impl.py')], input=json.dumps(job), env=core.repo_env(), timeout=1500)
+    stage['nnvg+compile'] = round(_t.time() - t0 - stage['coq'], 1)
     try:
         impl = json.loads(hp.stdout[hp.stdout.index('@@') + 2:])
     except Exception:
@@ -473,33 +486,38 @@ def main(chk: core.Check, replay: typing.Optional[str] = None) -> int:
         qidx[key] = len(queries)
         queries.append(q)
 
+    defs: typing.List[str] = []
     for s in sets:
         o = eff[s['id']]
         if o is None:
             continue
         L = s['lang']
+        defs.append('Definition o_%s : list (list N * oval) := %s.' % (s['id'], coq_opts(o)))   # each option set is parsed once
         if not s['omit']:
-            ask(('sup', s['id']), 'enc_tbl (rendered sav %s_support_side %s)' % (L, coq_opts(o)))
-        ask(('typ', s['id']), 'enc_tbl (rendered sav %s_type_side %s)' % (L, coq_opts(o)))
-        ask(('kfp', s['id']), 'enc_sav (keyfp sav %s)' % coq_opts(o))
+            ask(('sup', s['id']), 'enc_tbl (rendered sav %s_support_side o_%s)' % (L, s['id']))
+        ask(('typ', s['id']), 'enc_tbl (rendered sav %s_type_side o_%s)' % (L, s['id']))
+        ask(('kfp', s['id']), 'enc_sav (keyfp sav o_%s)' % s['id'])
     for p in pairs:
         if eff.get(p['typ']) is None or (p['sup'] and eff.get(p['sup']) is None):
             continue
         L = p['lang']
-        ot = coq_opts(eff[p['typ']])
+        ot = 'o_' + p['typ']
         if p['sup'] is None:
             ask(('pair', p['id']), 'enc_diags %s (compile_omit sav %s_type_side %s)' % (ot, L, ot))
         else:
-            ask(('pair', p['id']), 'enc_diags %s (compile_full sav %s_support_side %s_type_side %s %s)' % (ot, L, L, coq_opts(eff[p['sup']]), ot))
+            ask(('pair', p['id']), 'enc_diags %s (compile_full sav %s_support_side %s_type_side %s %s)' % (ot, L, L, 'o_' + p['sup'], ot))
     for i, v in enumerate(values):
         ask(('val', i), 'enc_sav (sav (%s))' % coq_val(v))
         if isinstance(v, str):
             ask(('crc', i), 'enc_crc (crc32_str %s)' % coq_str(v))
     model = None
     if model_usable:
-        model, mlog = run_model(queries)
+        model, mlog = run_model(queries, defs)
         if model is None:
             broken.append('model could not be evaluated: ' + mlog[-400:])
+
+    stage['model'] = round(_t.time() - t0 - stage['coq'] - stage['nnvg+compile'], 1)
+    chk.coverage['stage_seconds'] = stage
 
     def M(key):
         return model[qidx[key]] if model is not None and key in qidx else None
@@ -688,7 +706,7 @@ def main(chk: core.Check, replay: typing.Optional[str] = None) -> int:
         'evaluations': n_eval, 'distinct_nontrivial': len(distinct),
         'rule': 'ordered pairs (support option set, type-header option set) per language: every single-option difference from the default set '
                 'and (C++) from the explicit c++17-pmr set over the documented values, both orders; seeded random 2..5-option differences; '
-                'identical pairs; key-set differences (C: std added by --language-standard); --omit-serialization-support; 3 DSDL types per '
+                'identical pairs; key-set differences (C: std added by --language-standard); --omit-serialization-support; 4 DSDL types (struct, delimited composite, union, service) per '
                 'translation unit, each type header judged separately. Non-trivial = distinct pair whose two effective option sets differ or '
                 'on which the compiler reported a guard diagnostic. evaluations = compiled pairs + header number tables compared + filter '
                 'values compared. Pairs involving cetl strings are generated and their numbers compared but not compiled.',
